@@ -1,6 +1,177 @@
 package c12
 
-import "testing"
+import (
+	"fmt"
+	"strings"
+	"testing"
+	"time"
 
-// replayPipelines is filled in by the pipeline part of the check.
-func replayPipelines(t *testing.T) {}
+	"pgregory.net/rapid"
+
+	"verif/harness/evid"
+	"verif/harness/host"
+	"verif/harness/lang"
+	"verif/harness/leak"
+	"verif/harness/pipes"
+	"verif/harness/progs"
+)
+
+// PipeCase: a pipeline that is evaluated Repeats times; the result is forced, dropped
+// or partially consumed.
+type PipeCase struct {
+	Spec    *pipes.Spec `json:"spec"`
+	Text    string      `json:"text"`
+	Repeats int         `json:"repeats"`
+	Consume string      `json:"consume"` // force drop partial
+}
+
+var pimpl = progs.NewImpl(true)
+var pstate = host.NewState()
+
+func init() { host.Register(pimpl, pstate) }
+
+// classify attributes leaked goroutines to the open findings by their entry function.
+func classify(gs []leak.G) (known map[string]int, unknown []leak.G) {
+	known = map[string]int{}
+	for _, g := range gs {
+		switch {
+		case strings.Contains(g.Entry, "iterator.initParallel") || strings.Contains(g.Entry, "iterator.MapParallel"):
+			known["F11"]++
+		case strings.Contains(g.Entry, "iterator.ToChan"):
+			known["F12"]++
+		default:
+			unknown = append(unknown, g)
+		}
+	}
+	return
+}
+
+type pinfo struct {
+	stoppedEarly bool
+	known        map[string]int
+	started      bool
+}
+
+func checkPipe(c PipeCase) (string, pinfo) {
+	var inf pinfo
+	f, _, err := pimpl.Generate(c.Text)
+	if err != nil {
+		return "Generate rejected the pipeline: " + err.Error(), inf
+	}
+	baseline := leak.IDs()
+	pstate.SleepUs.Store(300)
+	for r := 0; r < c.Repeats; r++ {
+		func() {
+			defer func() { recover() }()
+			v, err := f.Eval()
+			if err != nil {
+				inf.stoppedEarly = true // error path
+				return
+			}
+			switch c.Consume {
+			case "force":
+				progs.Observe(v, nil)
+			case "partial":
+				if l, ok := v.ToList(); ok {
+					n := 0
+					for range l.Iterate(newStack()) {
+						n++
+						if n >= 3 {
+							inf.stoppedEarly = true
+							break
+						}
+					}
+				}
+			}
+		}()
+	}
+	left := leak.SettleStable(baseline, 3*time.Second, 400*time.Millisecond)
+	known, unknown := classify(left)
+	inf.known = known
+	if len(unknown) > 0 {
+		return fmt.Sprintf("%d evaluation(s) of %s (result %s) left %d goroutine(s) behind, by entry function: %v; first stack:\n%s", c.Repeats, c.Text, c.Consume,
+			len(unknown), leak.Entries(unknown), unknown[0].Stack), inf
+	}
+	return "", inf
+}
+
+func TestPropPipelines(t *testing.T) {
+	defer evid.R.Flush()
+	cfg := pipes.PipeConfig{MaxN: 1500, MaxStages: 4, Slow: true, FailPercent: 25, EarlyStop: true}
+	rapid.Check(t, func(t *rapid.T) {
+		sp := pipes.GenSpec(t, cfg, 1)
+		c := PipeCase{Spec: sp, Repeats: rapid.IntRange(1, 3).Draw(t, "repeats"), Consume: rapid.SampledFrom([]string{"force", "drop", "partial"}).Draw(t, "consume")}
+		if rapid.IntRange(0, 3).Draw(t, "lazyResult") == 0 {
+			sp.Terminal = pipes.Stage{Name: "list", Fail: -1}
+		}
+		c.Text = lang.Render(sp.Expr())
+		msg, inf := checkPipe(c)
+		if msg != "" {
+			evid.Fail(t, prop, "pipeline", "", c, "%s", msg)
+		}
+		cls := []string{"pipeline_consume_" + c.Consume, "pipeline_terminal_" + sp.Terminal.Name}
+		for id, n := range inf.known {
+			// attributed to an open finding of the dependency: counted, reported as
+			// KNOWN-FINDING by the driver, the search goes on
+			for i := 0; i < n; i++ {
+				evid.R.Known(id)
+			}
+			cls = append(cls, "pipeline_leak_attributed_to_"+id)
+		}
+		early := inf.stoppedEarly || sp.Has("first") || sp.Has("topSize") || sp.Has("present") || sp.Has("indexWhere") || sp.Has("top") || c.Consume != "force"
+		goroutineBacked := sp.HasSlow() || sp.Has("merge") || sp.Has("multiUse")
+		if goroutineBacked {
+			cls = append(cls, "pipeline_goroutine_backed_stage")
+		}
+		evid.R.Case(early && goroutineBacked, "pipe:"+c.Text+c.Consume, func() any {
+			return map[string]any{"kind": "pipeline", "pipeline": sp.Describe(), "text": c.Text, "consume": c.Consume, "repeats": c.Repeats}
+		}, cls...)
+	})
+}
+
+// TestKnownF12 evaluates the exemplar of the open finding F12 in a short-lived process:
+// merge over two long sources with a consumer that takes one element. The producers keep
+// iterating after the consumer is gone (dependency: a 'break' inside a select leaves only
+// the select). If they are still running one second later the finding is confirmed.
+func TestKnownF12(t *testing.T) {
+	defer evid.R.Flush()
+	// (the expression is constant: the optimizer evaluates it during Generate already)
+	baseline := leak.IDs()
+	f, _, err := pimpl.Generate("numbers(300000000).merge(numbers(300000000),(a,b)->a<b).first()")
+	if err != nil {
+		t.Fatal(err)
+	}
+	if _, err := f.Eval(); err != nil {
+		t.Fatal(err)
+	}
+	time.Sleep(time.Second)
+	spinning := 0
+	for _, g := range leak.Library() {
+		if !baseline[g.ID] && strings.Contains(g.Entry, "iterator.ToChan") {
+			spinning++
+		}
+	}
+	evid.R.Case(true, "F12-exemplar-a", nil, "known_finding_exemplar")
+	evid.R.Case(true, "F12-exemplar-b", nil, "known_finding_exemplar")
+	if spinning > 0 {
+		evid.R.Known("F12")
+		fmt.Printf("F12 confirmed: %d producer goroutines still iterate one second after the consumer stopped\n", spinning)
+	}
+}
+
+func replayPipelines(t *testing.T) {
+	for _, path := range evid.ReplayFiles("pipeline") {
+		var c PipeCase
+		if _, err := evid.ReadFailure(path, &c); err != nil {
+			t.Fatalf("cannot read %s: %v", path, err)
+		}
+		if c.Text == "" {
+			c.Text = lang.Render(c.Spec.Expr())
+		}
+		if msg, _ := checkPipe(c); msg != "" {
+			evid.ReplayFailed(t, path, msg)
+		} else {
+			evid.ReplayPassed(path)
+		}
+	}
+}
